@@ -113,7 +113,8 @@ def run_property(hmod, tier, seed, only=None):
     for ob in obs:
         t1 = time.time()
         lifted = ob.lifted()
-        out = ex.explore(ob.fn, lifted, ob.params, ("main", active), ob.timeout, ob.validate_every, ob.workers)
+        timeout = int(os.environ.get("VERIF_TIMEOUT", "0") or 0) or ob.timeout
+        out = ex.explore(ob.fn, lifted, ob.params, ("main", active), timeout, ob.validate_every, ob.workers)
         total.merge(out.stats)
         rec = {"obligation": ob.name, "bounds": ob.bounds, "status": out.status, "wall_s": round(time.time() - t1, 2)}
         rec.update(out.stats.as_dict())
